@@ -24,6 +24,10 @@ import (
 // accesses; the race detector can, and only ever reports real races.
 
 func init() {
+	replays["racepass"] = func(path string) int {
+		fmt.Println("this finding is a race-detector report of the supplementary free-running pass (its text is in the file): re-run the check to reproduce")
+		return 2
+	}
 	checks["racepass"] = racePass
 	workers["race"] = raceWorker
 	checks["racepass08"] = racePass08
